@@ -121,7 +121,7 @@ func authenticated(p scen.Policy, signer string, approvers []string) int {
 }
 
 func runC11(c *fw.Ctx) {
-	n := c.Pick(2400, 200000) / c.NShards
+	n := c.Pick(2400, 60000) / c.NShards
 	gitBudget := c.Pick(2, 30)
 	r := c.Rand(uint64(1100 + c.Shard))
 	for i := 0; i < n; i++ {
